@@ -24,6 +24,14 @@ func (e *Engine) nondetRange(key string, lo, hi int64, w int) *Term {
 	if nd, ok := e.nondets[key]; ok {
 		return nd.term
 	}
+	if pv, ok := e.pinCase[key]; ok && e.pin == nil {
+		if pv < lo || pv > hi {
+			abort("skip-case")
+		}
+		t := BV(w, uint64(pv))
+		e.regNondet(key, t, w, true)
+		return t
+	}
 	if e.pin != nil {
 		v := e.pin[key]
 		if v < lo {
@@ -53,12 +61,41 @@ func (e *Engine) nondetRange(key string, lo, hi int64, w int) *Term {
 	}
 	t := build(lo, hi, 0)
 	e.regNondet(key, t, w, true)
+	if e.shadow != nil {
+		want := e.shadow[key]
+		if want < lo {
+			want = lo
+		}
+		if want > hi {
+			want = hi
+		}
+		l, h := lo, hi
+		for d := 0; l != h; d++ {
+			mid := l + (h-l)/2
+			bn := fmt.Sprintf("%s!b%d", key, d)
+			if want > mid {
+				e.shadowAsg[bn] = 1
+				l = mid + 1
+			} else {
+				e.shadowAsg[bn] = 0
+				h = mid
+			}
+		}
+	}
 	return t
 }
 
 func (e *Engine) nondetFull(key string, w int, sgn bool) *Term {
 	if nd, ok := e.nondets[key]; ok {
 		return nd.term
+	}
+	if pv, ok := e.pinCase[key]; ok && e.pin == nil {
+		t := BV(w, uint64(pv))
+		if w == 0 {
+			t = Bool(pv != 0)
+		}
+		e.regNondet(key, t, w, sgn)
+		return t
 	}
 	if e.pin != nil {
 		t := BV(w, uint64(e.pin[key]))
@@ -70,6 +107,9 @@ func (e *Engine) nondetFull(key string, w int, sgn bool) *Term {
 	}
 	t := Var(key, w)
 	e.regNondet(key, t, w, sgn)
+	if e.shadow != nil {
+		e.shadowAsg[key] = uint64(e.shadow[key]) & mask64(w)
+	}
 	return t
 }
 
@@ -88,6 +128,9 @@ func (e *Engine) nondetOf(key string, alphabet string, w int) *Term {
 		t := BV(w, uint64(b))
 		e.regNondet(key, t, w, false)
 		return t
+	}
+	if e.shadow != nil {
+		e.shadow[key+"!i"] = int64(strings.IndexByte(alphabet, byte(e.shadow[key])))
 	}
 	idx := e.nondetRange(key+"!i", 0, int64(len(alphabet)-1), IntW)
 	// map idx tree to alphabet values
@@ -234,6 +277,15 @@ func (e *Engine) intrinsic(fn *ssa.Function, args []Value, g *Term, pos token.Po
 	case "vTrace":
 		e.traces = append(e.traces, traceRec{constString(args[0], "label"), And(g, args[1].(*Term)), g})
 		return nil, g, true
+	case "vSkipCase":
+		c := args[0].(*Term)
+		if c == True {
+			abort("skip-case")
+		}
+		if c != False {
+			abort("vSkipCase: condition is not decided by the case-split values")
+		}
+		return nil, g, true
 	case "vNative":
 		return False, g, true
 	case "vBlock":
@@ -322,6 +374,10 @@ func (e *Engine) libIntrinsic(fn *ssa.Function, key string, args []Value, g *Ter
 			return True, g, true
 		case "(*sync.WaitGroup).Add", "(*sync.WaitGroup).Done", "(*sync.WaitGroup).Wait":
 			return e.waitGroup(fn.Name(), args, g, pos)
+		}
+	case "bytes":
+		if r, ng, ok := e.bytesBuffer(fn, key, args, g, pos); ok {
+			return r, ng, true
 		}
 	case "runtime":
 		switch fn.Name() {
@@ -707,4 +763,105 @@ func (e *Engine) waitGroup(op string, args []Value, g *Term, pos token.Pos) (Val
 		}
 	}
 	return nil, prune(out), true
+}
+
+
+// ---------- bytes.Buffer (modelled on its fields: buf []byte, off int) ----------
+
+func (e *Engine) bytesBuffer(fn *ssa.Function, key string, args []Value, g *Term, pos token.Pos) (Value, *Term, bool) {
+	fr := &frame{e: e}
+	byteT := types.Typ[types.Byte]
+	newBuf := func(buf SliceV) Value {
+		bt := e.prog.ImportedPackage("bytes").Type("Buffer").Type().Underlying().(*types.Struct)
+		sv := zero(bt).(StructV)
+		sv.f[0] = buf
+		return PtrV{alts: []PtrAlt{{g: True, obj: newObject(sv)}}}
+	}
+	getBuf := func() (SliceV, *Term) {
+		st := fr.load(args[0].(PtrV), g, pos).(StructV)
+		return st.f[0].(SliceV), st.f[1].(*Term)
+	}
+	setBuf := func(buf SliceV, off *Term) {
+		p := args[0].(PtrV)
+		fr.store(extendPath(p, PathElem{field: 0}), buf, g, pos)
+		if off != nil {
+			fr.store(extendPath(p, PathElem{field: 1}), off, g, pos)
+		}
+	}
+	tail := func(buf SliceV, off *Term) SliceV {
+		var r SliceV
+		for _, al := range buf.alts {
+			if al.obj == nil {
+				r.alts = append(r.alts, al)
+				continue
+			}
+			r.alts = append(r.alts, SliceAlt{g: al.g, obj: al.obj, off: BinBV("bvadd", al.off, off), ln: BinBV("bvsub", al.ln, off), cap: BinBV("bvsub", al.cap, off)})
+		}
+		return r
+	}
+	switch key {
+	case "bytes.NewBuffer":
+		return newBuf(args[0].(SliceV)), g, true
+	case "bytes.NewBufferString":
+		return newBuf(fr.stringToBytes(args[0].(StringV))), g, true
+	case "(*bytes.Buffer).Write", "(*bytes.Buffer).WriteString":
+		buf, _ := getBuf()
+		nb := fr.appendAny(buf, byteT, args[1], g, pos).(SliceV)
+		setBuf(nb, nil)
+		var n *Term
+		if s, ok := args[1].(SliceV); ok {
+			n = sliceLen(s)
+		} else {
+			n = args[1].(StringV).n
+		}
+		return TupleV{n, nilIface()}, g, true
+	case "(*bytes.Buffer).WriteByte":
+		buf, _ := getBuf()
+		c := args[1].(*Term)
+		nb := fr.appendCore(buf, byteT, BV(IntW, 1), 1, func(int) Value { return c }, g, pos).(SliceV)
+		setBuf(nb, nil)
+		return nilIface(), g, true
+	case "(*bytes.Buffer).String":
+		buf, off := getBuf()
+		return fr.bytesToString(tail(buf, off), g, pos), g, true
+	case "(*bytes.Buffer).Bytes":
+		buf, off := getBuf()
+		return tail(buf, off), g, true
+	case "(*bytes.Buffer).Len":
+		buf, off := getBuf()
+		return BinBV("bvsub", sliceLen(buf), off), g, true
+	case "(*bytes.Buffer).Reset":
+		buf, _ := getBuf()
+		var r SliceV
+		for _, al := range buf.alts {
+			al.ln = BV(IntW, 0)
+			r.alts = append(r.alts, al)
+		}
+		setBuf(r, BV(IntW, 0))
+		return nil, g, true
+	case "(*bytes.Buffer).Read":
+		buf, off := getBuf()
+		src := tail(buf, off)
+		avail := sliceLen(src)
+		dst := args[1].(SliceV)
+		n := fr.doCopy([]Value{dst, src}, g, pos).(*Term)
+		setBuf(buf, BinBV("bvadd", off, n))
+		empty := Eq(avail, BV(IntW, 0))
+		dstEmpty := Eq(sliceLen(dst), BV(IntW, 0))
+		var eof Value = e.globalVal("io", "EOF")
+		return TupleV{n, iteVal(And(empty, Not(dstEmpty)), eof, nilIface())}, g, true
+	}
+	return nil, nil, false
+}
+
+func (e *Engine) globalVal(pkg, name string) Value {
+	p := e.prog.ImportedPackage(pkg)
+	if p == nil {
+		abort("package %s not loaded", pkg)
+	}
+	gl, ok := p.Members[name].(*ssa.Global)
+	if !ok {
+		abort("global %s.%s not found", pkg, name)
+	}
+	return e.globalObj(gl).val
 }
